@@ -22,7 +22,8 @@ RULE = ("[options] user option dicts: None, {}, random subsets of the 22 documen
         "latex and labella dicts, a LinearScale or TimeScale object, undocumented extra keys) plus a malformed stream (partial "
         "margin / labelPadding, non-dict latex / labella, unknown direction or algorithm, empty colour list): the merged dict "
         "self.options (command 721) and every value the renderers and the engine read from it (command 720) are compared with "
-        "the implementation's, and the exception class where the model raises. Non-trivial = at least two keys given.")
+        "the implementation's, and the exception class where the model raises; the composition export_docs = options ; whole "
+        "pipeline (command 722) must return both documents exactly when both real exports succeed. Non-trivial = at least two keys given.")
 
 
 # ------------------------------------------------------------ encoding ---
@@ -96,9 +97,32 @@ CALLER_SCALE_ID = 1
 FRESH_SCALE_ID = 2
 
 
+# the data impl() builds: three items, numeric for a LinearScale, date/datetime otherwise
+LIN_DATA = [(1.5, 30), (7.25, 40), (3, 20)]
+TIME_DATA = [("T", 1580450400000000, 30), ("T", 1583020800000000, 40), ("D", (2020, 2, 10), 20)]   # 2020-01-31T06:00, 2020-03-01, 2020-02-10
+
+
+def _is_linear(spec):
+    return isinstance((spec or {}).get("scale"), dict) and (spec or {})["scale"].get("__scale__") == "linear"
+
+
+def _export_call(py):
+    """command 722: export_docs = resolve ; axis ; engine ; both emitters, status only"""
+    a = [722, FRESH_SCALE_ID] + _user(py["opts"]) + [2020, 1, 1]
+    if _is_linear(py["opts"]):
+        a += [len(LIN_DATA)]
+        for t, w in LIN_DATA:
+            a += [0] + _q(t) + _q(w)
+    else:
+        a += [len(TIME_DATA)]
+        for kind, v, w in TIME_DATA:
+            a += ([2, v] if kind == "T" else [1] + list(v)) + _q(w)
+    return a
+
+
 def model_calls(py):
     u = [FRESH_SCALE_ID] + _user(py["opts"])
-    return [[720] + u, [721] + u]
+    return [[720] + u, [721] + u, _export_call(py)]
 
 
 def with_model(c):
@@ -254,11 +278,12 @@ def impl(py):
         opts = None if spec is None else _real(spec, objs)
         before = _snapshot(opts)
         if linear:
-            data = [{"time": 1.5, "width": 30, "text": "a"}, {"time": 7.25, "width": 40, "text": "b"}, {"time": 3, "width": 20}]
+            data = [{"time": t, "width": w} for t, w in LIN_DATA]
+            data[0]["text"], data[1]["text"] = "a", "b"
         else:
             data = [{"time": datetime.datetime(2020, 1, 31, 6), "width": 30, "text": "a"},
                     {"time": datetime.datetime(2020, 3, 1), "width": 40, "text": "b"},
-                    {"time": datetime.date(2020, 2, 10), "width": 20}]
+                    {"time": datetime.date(2020, 2, 10), "width": 20}]          # = TIME_DATA
         defaults_before = _snapshot(TL.DEFAULT_OPTIONS)
         r = {}
         try:
@@ -553,6 +578,15 @@ def compare(case, io, mo):
         if r["own_scale"] != m["own_scale"]:
             return "%s: the timeline %s its own scale object, model says %r" % (
                 kind, "made" if r["own_scale"] else "did not make", m["own_scale"])
+    # ---- the composition export_docs (option dictionaries ; whole pipeline), status only
+    if len(mo) > 2 and mo[2] is not None and mo[2][:1] != [-999]:
+        st = mo[2]
+        impl_ok = all("exc" not in io[k] for k in ("svg", "tex"))
+        if st == [1] and not impl_ok:
+            bad = [(k, io[k]["exc"]) for k in ("svg", "tex") if "exc" in io[k]]
+            return "export_docs (options ; pipeline) returns both documents, the implementation raises %r" % (bad,)
+        if st != [1] and impl_ok:
+            return "export_docs (options ; pipeline) does not return documents (%r), the implementation exports both" % (st,)
     return None
 
 
